@@ -255,13 +255,14 @@ REPORT_RE = re.compile(r"=\s*(\(.*?\))\s*:\s*nat\s*\*\s*list nat\s*\*\s*list nat
 
 
 def run_shard(args):
-    path, n = args
+    path, n = args[:2]
+    tmo = args[2] if len(args) > 2 else 2400
     for attempt in (1, 2):
         try:
             r = subprocess.run(["coqc", "-Q", str(COQ), "NurbsV", str(path)], capture_output=True,
-                               text=True, timeout=2400, cwd=path.parent)
+                               text=True, timeout=tmo, cwd=path.parent)
         except subprocess.TimeoutExpired:
-            if attempt == 2:
+            if attempt == 2 or tmo < 2400:
                 return path, None, "coqc timed out"
             continue
         if r.returncode != 0:
@@ -280,7 +281,7 @@ def run_shard(args):
     return path, None, "unreachable"
 
 
-def run_coq(prop, mod, cases, outs, rundir, tag):
+def run_coq(prop, mod, cases, outs, rundir, tag, tmo=2400):
     """Returns (corr_bad_indices, prop_bad_indices, shard_errors)."""
     if hasattr(mod, "families"):
         fams = mod.families()
@@ -304,7 +305,7 @@ def run_coq(prop, mod, cases, outs, rundir, tag):
             jobs.append((path, len(sub), sub))
     corr_bad, prop_bad, errors = [], [], []
     with cf.ThreadPoolExecutor(max_workers=16) as ex:
-        for (path, res, err), (_, _, sub) in zip(ex.map(run_shard, [(p, n) for p, n, _ in jobs]), jobs):
+        for (path, res, err), (_, _, sub) in zip(ex.map(run_shard, [(p, n, tmo) for p, n, _ in jobs]), jobs):
             if err is not None:
                 errors.append(f"{path.name}: {err}")
                 continue
@@ -337,12 +338,12 @@ def write_replay(prop, kind, payload):
     return path
 
 
-def evaluate(prop, mod, cases, tag):
+def evaluate(prop, mod, cases, tag, tmo=2400):
     """Run implementation + Coq on cases; returns (outs, corr_bad, prop_bad)."""
     if not cases:
         return [], [], []
     outs, rundir = run_impl(prop, cases, tag)
-    corr_bad, prop_bad, errors = run_coq(prop, mod, cases, outs, rundir, tag)
+    corr_bad, prop_bad, errors = run_coq(prop, mod, cases, outs, rundir, tag, tmo)
     if errors:
         raise CheckError("Coq evaluation of generated cases failed: " + " | ".join(errors)[:2000])
     return outs, corr_bad, prop_bad
@@ -497,7 +498,7 @@ def run(prop, mod, tier, seed, replay, evidence_path, t0):
                 extra_cases = extra_cases[:limit]
                 searched = len(extra_cases)
                 try:
-                    eouts, ecorr, eprop = evaluate(prop, mod, extra_cases, "search")
+                    eouts, ecorr, eprop = evaluate(prop, mod, extra_cases, "search", 420)
                 except CheckError:
                     eouts, ecorr, eprop = [], [], []
                 eprop = [i for i in eprop if case_key(extra_cases[i]) not in known_keys]
